@@ -152,13 +152,13 @@ func (p *c06Proc) stop() {
 }
 
 type c06Res struct {
-	Alloc   uint64
-	Wall    time.Duration
-	Panics  int
-	Entries int
-	Died    bool   // worker exited while this input was in flight
-	OOM     bool   // ... with a Go out-of-memory fatal error
-	Stderr  string // first part of the worker's stderr when it died
+	Alloc    uint64
+	Wall     time.Duration
+	Panics   int
+	Entries  int
+	Died     bool   // worker exited while this input was in flight
+	OOM      bool   // ... with a Go out-of-memory fatal error
+	Stderr   string // first part of the worker's stderr when it died
 	TimedOut bool
 }
 
@@ -463,11 +463,13 @@ func nestings() []c06Placed {
 	}
 	for _, d := range []int{8, 100, 1000, 9999, 10000, 10001, 30000} {
 		for name, mk := range map[string]func(int) string{
-			"array":        func(d int) string { return strings.Repeat("[", d) + strings.Repeat("]", d) },
-			"object":       func(d int) string { return strings.Repeat(`{"a":`, d) + "1" + strings.Repeat("}", d) },
-			"array-open":   func(d int) string { return strings.Repeat("[", d) },
-			"in-claim":     func(d int) string { return `{"psa-software-components":` + strings.Repeat("[", d) + strings.Repeat("]", d) + `}` },
-			"in-unknown":   func(d int) string { return `{"x":` + strings.Repeat(`{"a":`, d) + "1" + strings.Repeat("}", d) + `}` },
+			"array":      func(d int) string { return strings.Repeat("[", d) + strings.Repeat("]", d) },
+			"object":     func(d int) string { return strings.Repeat(`{"a":`, d) + "1" + strings.Repeat("}", d) },
+			"array-open": func(d int) string { return strings.Repeat("[", d) },
+			"in-claim": func(d int) string {
+				return `{"psa-software-components":` + strings.Repeat("[", d) + strings.Repeat("]", d) + `}`
+			},
+			"in-unknown":    func(d int) string { return `{"x":` + strings.Repeat(`{"a":`, d) + "1" + strings.Repeat("}", d) + `}` },
 			"object-in-arr": func(d int) string { return strings.Repeat(`[{"a":`, d/2) + "1" + strings.Repeat("}]", d/2) },
 		} {
 			doc := mk(d)
